@@ -123,7 +123,7 @@ def gen_wire_cases(rng, n, big, ops=('unpack', 'acc')):
                          'multi_oneof': rng.random() < 0.4, 'omit_req_dflt': rng.random() < 0.4,
                          # embedded messages occurring more than once: the parser merges them (every path of merge_messages is
                          # reachable from hostile or merely unusual input, seeded change S75)
-                         'multi_occ': rng.random() < 0.35, 'split_msg': rng.random() < 0.35}
+                         'multi_occ': rng.random() < 0.35, 'split_msg': rng.random() < 0.35, 'explicit_zero': rng.random() < 0.3}
                 encs.append(('knobbed', encode(sch, m, rng, knobs)))
             base = encs[rng.randrange(len(encs))][1]
             for _ in range(3):
@@ -250,7 +250,8 @@ def gen_alloc_cases(rng, n, big, faults):
             m = rand_msg(rng, sch, ty, big=False)
             knobs = {'pad': rng.random() < 0.3, 'flip_packed': rng.random() < 0.4, 'split_packed': rng.random() < 0.5,
                      'stale': rng.random() < 0.6, 'shuffle': rng.random() < 0.5, 'empty_packed': rng.random() < 0.3,
-                     'split_msg': rng.random() < 0.5, 'multi_occ': rng.random() < 0.5, 'multi_oneof': rng.random() < 0.6}
+                     'split_msg': rng.random() < 0.5, 'multi_occ': rng.random() < 0.5, 'multi_oneof': rng.random() < 0.6,
+                     'explicit_zero': rng.random() < 0.5}
             b = encode(sch, m, rng, knobs)
             r = rng.random()
             if r < 0.2:
